@@ -82,6 +82,12 @@ def dt_octet(payload, size, k, i):
     return ite(7 * k + i < size, payload[7 * k + i], 255)
 
 
+def is_dt_hdr(ev, send, dest, src, k):
+    # TP.DT number k+1 of a session: identifier and sequence number (content: is_dt)
+    return (ev.fn == send and ev.n == 3 and ev.i0 == tp_dt_id(dest, src) and ev.b1 == True and len(ev.l2) == 8
+            and ev.l2[0] == k + 1)
+
+
 def is_dt(ev, send, dest, src, payload, size, k):
     # TP.DT number k+1 of a message: sequence number then seven octets
     return (ev.fn == send and ev.n == 3 and ev.i0 == tp_dt_id(dest, src) and ev.b1 == True and len(ev.l2) == 8
@@ -101,9 +107,12 @@ def snd21_ok(k, r):
             and 0 <= r['next_packet_to_send'] and r['next_packet_to_send'] <= r['num_packages']
             and 0 <= r['state'] and r['state'] <= 3
             and 0 <= r['pgn'] and r['pgn'] < 2 ** 18
+            and r['deadline'] > 0
             and implies(r['state'] == S21_SENDING_BM, r['dest_address'] == 255 and r['next_packet_to_send'] < r['num_packages'])
             and implies(r['dest_address'] != 255, has_key(r, 'next_wait_on_cts'))
-            and implies(r['state'] == S21_WAITING_CTS or r['state'] == S21_SENDING_IN_CTS, r['dest_address'] != 255))
+            and implies(r['state'] == S21_WAITING_CTS or r['state'] == S21_SENDING_IN_CTS, r['dest_address'] != 255)
+            # the payload list is never a reassembly buffer of a receive session (those are extended in place)
+            and not has_key(owner(r['data']), 'next_packet') and not has_key(r, 'next_packet'))
 
 
 def rcv21_ok(k, r):
@@ -114,8 +123,11 @@ def rcv21_ok(k, r):
             and 0 <= r['pgn'] and r['pgn'] < 2 ** 24
             and 0 <= r['message_size'] and r['message_size'] < 65536
             and 0 <= r['num_packages'] and r['num_packages'] <= 255
+            and r['deadline'] > 0
             # a buffer that reaches the announced size is delivered and removed in the same call
-            and (len(r['data']) == 0 or len(r['data']) < r['message_size']))
+            and (len(r['data']) == 0 or len(r['data']) < r['message_size'])
+            # the reassembly buffer is owned by its session (it is extended in place)
+            and owner(r['data']) == r)
 
 
 def inv21(dll):
